@@ -4,7 +4,7 @@
     computes ([model_check]), they satisfy the model-independent trial-division specification of
     Corr.v ([spec_check]); so the batch lemma about the model carries the specification to the
     implementation by proof.  No side condition is needed: a negative limit fails [model_check]
-    itself ([0 <=? n]), [CPanic] fails it by definition, and [Z.to_nat]/[Z.of_nat] round-trip on n >= 0.
+    itself ([0 <=? n]), [CPanic] and [CIncoherent] fail it by definition, and [Z.to_nat]/[Z.of_nat] round-trip on n >= 0.
 
     Route: (1) the Z trial division [ld (cands_upto N) k] is mathcomp's [pdiv k] for 2 <= k <= N
     (the [d*d > k] cut is sound: [ltn_pdiv2_prime]), hence [primeb] is [prime] on 0..N;
@@ -256,4 +256,4 @@ by rewrite factorize_correct ?mN //; apply: rec_ok_prime_decomp.
 Qed.
 
 Theorem model_check_spec_check (c : case) : model_check c = true -> spec_check c = true.
-Proof. case: c => [n m i p|n f|n] //; [exact: tab_case|exact: fact_case]. Qed.
+Proof. case: c => [n m i p|n f|n|n] //; [exact: tab_case|exact: fact_case]. Qed.
